@@ -30,9 +30,21 @@ pub(crate) struct Instant {
 
 impl Instant {
     pub fn now() -> Self {
+        #[cfg(btdht_verif)]
+        if let Some(std_instant) = crate::verif::virtual_now() {
+            return Self {
+                std_instant: std_instant.checked_add(OFFSET).unwrap(),
+            };
+        }
         Self {
             std_instant: StdInstant::now().checked_add(OFFSET).unwrap(),
         }
+    }
+
+    /// The underlying `std` instant without the internal offset (verification hook).
+    #[cfg(btdht_verif)]
+    pub fn verif_std(&self) -> StdInstant {
+        self.std_instant.checked_sub(OFFSET).unwrap()
     }
 
     pub fn checked_sub(&self, rhs: Duration) -> Option<Self> {
